@@ -849,3 +849,20 @@ def render_with_text(cmds, tb):
     return "\n".join(out) + "\n"
 
 BUILDERS["printing"] = b_printing
+
+# ------------------------------------------------------------------ proofs (C10)
+def b_proofs(job):
+    rng = random.Random(job["seed"])
+    g = G.Gen(rng, job["logic"], box=True)
+    q = [{"c": "get-proof"}]
+    if job.get("mode", "biased") == "biased":
+        body = unsat_biased_body(g, rng, p_named=0.0, nested=False, queries=q, histories=job.get("histories", True), n_atoms=job.get("n_atoms", 4))
+    else:
+        body = G.random_history(g, rng, n_assert=6, queries=q, min_checks=2)
+    cmds = G.preamble(g, _opts("proofs")) + body
+    fam = C.Family(g)
+    run = fam.add_run("s", "proofs", "main", cmds)
+    r = _result(fam, job)
+    r["nontrivial"] = run.get("proofs", 0) > 0
+    return r
+BUILDERS["proofs"] = b_proofs
